@@ -150,11 +150,12 @@ ENC_ASSUME = [
 ]
 PROPS["C05"] = {
     "level": "model_checking", "assumptions": ENC_ASSUME,
-    "claim": "for every (k,r,N1,seed) of the grid and every pollution prefix (6 histories of other sessions, incl. a rejected configuration, an ML-decoding session and a displaced PRNG state): the parity-check matrix walked by rows and by columns in an encoder and in a decoder session equals the RFC 5170 reference entry by entry, and the encoder's codeword satisfies every reference equation (behavioural H); the interleaved case is C12",
+    "claim": "for every (k,r,N1,seed) of the grid and every pollution prefix (6 histories of other sessions, incl. a rejected configuration, an ML-decoding session and a displaced PRNG state): the parity-check matrix walked by rows and by columns in an encoder and in a decoder session equals the RFC 5170 reference entry by entry, and the encoder's codeword satisfies every reference equation (behavioural H); the interleaved case is C12. Histories: every sequence of 6 (thorough 7) LDPC sessions over 4 (5) codes with n = 9, 12, 4097, 4500 (400), each sequence in its own process, encoder/decoder alternating, with and without overlap of consecutive sessions: every matrix equals the reference of its own parameters",
     "technique": "exhaustive enumeration of a parameter grid x history prefixes on the real code against an independent RFC 5170 reference model",
     "rule": "point = (k,r,N1,seed,prefix); states = points, transitions = build_repair_symbol calls; all points distinct",
     "bounds": {"quick": "k in {1..12,16,20,32}+3 large points, r in {3..12,16,32}, N1 3..min(r,10), seeds {1,2,2^31-2}, 6 prefixes; k=10000/20000 blocks (structural comparison) with 6 seeds; lengths 1..40 x alignments 1..7 on two small codes", "thorough": "k up to 1000, r up to 500, 7 seeds, 6 prefixes (2 for the largest); 117 further seeds on every shape k<=12, r<=12, N1<=7 (prefix rotating); k=10000/20000 blocks with 40 seeds"},
-    "runs": [{"name": "ldpc-trk", "src": "h_enc.c", "variant": "trk", "args": ["--mode", "ldpc"]}],
+    "runs": [{"name": "ldpc-trk", "src": "h_enc.c", "variant": "trk", "args": ["--mode", "ldpc"]},
+             {"name": "hist-trk", "src": "h_enc.c", "variant": "trk", "args": ["--mode", "hist"]}],
 }
 PROPS["C06"] = {
     "level": "model_checking", "assumptions": ENC_ASSUME,
@@ -221,7 +222,9 @@ PROPS["C16"] = {
              {"name": "2d-structure-asan", "src": "h_enc.c", "variant": "asan", "args": ["--mode", "2d"]},
              {"name": "2d-bfs-trk", "src": "h_codec.c", "variant": "trk", "args": ["--mode", "bfs", "--codecs", "2d", "--cb", "n"]},
              {"name": "2d-bfs-asan", "src": "h_codec.c", "variant": "asan", "args": ["--mode", "bfs", "--codecs", "2d", "--cb", "n"]},
-             {"name": "2d-subsets-trk", "src": "h_codec.c", "variant": "trk", "args": ["--mode", "subsets", "--codecs", "2d"]}],
+             {"name": "2d-subsets-trk", "src": "h_codec.c", "variant": "trk", "args": ["--mode", "subsets", "--codecs", "2d"]},
+             {"name": "2d-lens-trk", "src": "h_codec.c", "variant": "trk", "args": ["--mode", "lens", "--codecs", "2d", "--cb", "n"]},
+             {"name": "2d-lens-asan", "src": "h_codec.c", "variant": "asan", "args": ["--mode", "lens", "--codecs", "2d", "--cb", "n"], "tiers": ("thorough",)}],
     "budget": {"quick": 600, "thorough": 5400},
 }
 
